@@ -235,7 +235,7 @@ pub fn install_silent_panic_hook() {
         let mut m: String = msg.chars().take(160).collect();
         m.push_str(" @ ");
         m.push_str(&loc);
-        if std::env::var_os("MC_DEBUG").is_some() {
+        if std::env::var("MC_DEBUG").map(|v| !v.is_empty()).unwrap_or(false) {
             eprintln!("panic: {}", m);
         }
         LAST_PANIC.with(|c| *c.borrow_mut() = m);
